@@ -29,6 +29,10 @@ EXPLANATION = (
     "requests of one connection must not be dispatched concurrently — the rule looks for a proof of per-connection serialisation at "
     "the dispatch site. R8 (= C15-R4) every throwing primitive on the I/O-thread framing path sits in a try whose handlers cover every "
     "exception type it can throw, so an unparsable request ends in a status or a close and never in an exception that leaves it waiting.")
+# exempt from the function-inventory guard (report.py): these rules hold for, or look into, functions they have never seen
+FOLLOWS_HELPERS = {"C16-R3": "universal: every function that writes a response body sets Content-Length in the same block, wherever it is",
+                   "C16-R5": "the handler clauses are followed into the functions they call (who sets 500 / set_content / clears suppression)",
+                   "C16-R8": "call-graph closure from the transport callbacks: new helpers on the I/O-thread path are part of the closure"}
 NOT_DECIDED = ["handler run times and scheduling", "well-formedness of headers a handler writes by hand (raw body without set_content)", "that the peer reads what was queued", "exceptions thrown after the response was handed to the transport (assumed none)"]
 
 
